@@ -1464,8 +1464,14 @@ def impl_records(spec, lits):
 def model_domain(spec):
     """specs the Coq model speaks about"""
     for c in spec["cmds"]:
-        if c.get("kw"):
+        if c.get("kw") or c["op"] == "New":
             return False
+        for x in c.get("p", []):
+            if isinstance(x, dict) and "e" in x:
+                for a_ in expr_atoms(x["e"]):
+                    # the model does not bound-check register[k] for a free parameter named q<k> (left to the search)
+                    if a_[0] == "free" and re.fullmatch(r"q\d+", a_[1]) and int(a_[1][1:]) >= spec["n"]:
+                        return False
         if c["op"] not in OPNAMES and c["op"] not in MKIND and c["op"] not in META and c["op"] != "Fouriergate":
             return False
     return True
@@ -1519,7 +1525,8 @@ TRUSTED_BASE = [
 ]
 ASSUMPTIONS = [
     "non-symbolic, non-string parameter values are opaque in the model (the code passes them through); string literals used as parameters "
-    "are not of the form p<digits> or {..}; symbolic parameters contain at least one unbound / unmeasured atom",
+    "are not of the form p<digits> or {..}; symbolic parameters contain at least one unbound / unmeasured atom; a free parameter "
+    "named q<k> has k < number of modes in the modelled domain (the IndexError otherwise is found by the search only)",
     "neither text format declares the number of modes, so unused trailing modes are not required to survive a text round trip "
     "(num_subsystems is compared only for the Blackbird object-level round trip and generate_code)",
     "program name and Interferometer mesh / tolerance options are not part of the compared meaning; generate_code is checked on programs "
@@ -1543,7 +1550,9 @@ def _corpus_files():
 def correspondence(ctx):
     rng = ctx.rng
     n_cases = ctx.budget(160, 1500)
-    specs = []
+    # the fixed sweep first (every parameter kind in every slot, plain and TDM), then random programs
+    specs = [sp for sp in systematic_specs() if model_domain(sp) and expr_survives(sp)]
+    n_cases += len(specs)
     tries = 0
     while len(specs) < n_cases and tries < n_cases * 5:
         tries += 1
@@ -1676,7 +1685,7 @@ def systematic_specs():
         "meas": E(["meas", 1]), "measexpr": E(["mul", ["num", 2], ["meas", 1]]), "measfn": E(["add", ["sin", ["meas", 1]], ["num", 1]]),
         "measnegpow": E(["neg", ["pow", ["meas", 1], 2]]), "freenegpow": E(["neg", ["pow", ["free", "a"], 2]]),
         "mixed": E(["add", ["free", "b1"], ["meas", 1]]), "mixedfn": E(["mul", ["free", "x"], ["cos", ["meas", 1]]]),
-        "free_q1": E(["free", "q1"]), "free_quux": E(["free", "quux"]), "free_p7": E(["free", "p7"]), "free_q1expr": E(["exp", ["free", "q1"]]),
+        "free_q1": E(["free", "q1"]), "free_quux": E(["free", "quux"]), "free_p7": E(["free", "p7"]), "free_q1expr": E(["exp", ["free", "q1"]]), "free_q9": E(["free", "q9"]),
     }
     tdm1 = {"N": [2], "arrays": [[0.5, 1.5, math.pi]], "shift": "default"}
     tdm2 = {"N": [2], "arrays": [[1, 2], [0.25, -0.75]], "shift": "default"}
